@@ -50,10 +50,10 @@ def watchWorld (files : List (String × List Variant)) : Session.World String Na
           | .nofuel => "model-nofuel" }
 
 /-- a history over a project with a value module (`cfg_v.ts`, used through its default export and `typeof`) is outside the
-module model: not tied -/
+module model, and so is one where a new source file shadows a declaration file of the same base name (`sh_v*`): not tied -/
 def hasValueModule : Sexp → Bool
   | .list (.atom "files" :: fs) => fs.any fun f => match f with
-    | .list (.atom "file" :: .str n :: _) => n == "cfg_v.ts"
+    | .list (.atom "file" :: .str n :: _) => n == "cfg_v.ts" || n.startsWith "sh_v"
     | _ => false
   | _ => false
 
